@@ -10,7 +10,7 @@ from .vlib import COQ, Check, ImplTimeout, cps, uncps, with_timeout
 
 PID = "C06"
 CLAIM = dict(
-    text="39 Coq theorems (all closed under the global context) over executable models, in an explicit exception monad, of "
+    text="Coq theorems (56; all closed under the global context) over executable models, in an explicit exception monad, of "
          "quote_header_value / unquote_header_value, dump_header / parse_list_header (with urllib's parse_http_list) / parse_dict_header, "
          "dump_options_header / parse_options_header (RFC 2231 charset, continuation and percent decoding included), HeaderSet, "
          "ETags.to_header / parse_etags, Range / ContentRange to_header and their parsers, dump_age / parse_age, CSP, the typed "
